@@ -139,3 +139,15 @@ func init() {
 		mutant{Name: "benign-goroutine-function-value-copied-inline", Prop: "C08", File: "interp/run.go", Old: "\t\t\t\tbf = fixArg(bf)\n", New: "\t\t\t\tbfc := reflect.New(bf.Type()).Elem()\n\t\t\t\tbfc.Set(bf)\n\t\t\t\tbf = bfc\n", Benign: true},
 	)
 }
+
+func init() {
+	addMutants(
+		// round-6 seeds on the constant code
+		mutant{Name: "exact-check-skipped-for-non-growing-operators", Prop: "C03", File: "interp/typecheck.go", Old: "\t\tv = constant.BinaryOp(x, tok, y)\n\t}\n", New: "\t\tif tok == token.REM || tok == token.QUO_ASSIGN {\n\t\t\treturn nil\n\t\t}\n\t\tv = constant.BinaryOp(x, tok, y)\n\t}\n", Rule: "R03.17", Key: "typecheck.constExpr/acceptance#7/independent-of-the-operator"},
+		mutant{Name: "negation-folded-into-the-operand", Prop: "C03", File: "interp/op.go", Old: "\tn.rval = reflect.New(t).Elem()\n\tswitch {\n\tcase isConst:\n\t\tv := constant.UnaryOp(token.SUB, vConstantValue(v0), 0)\n", New: "\tn.rval = v0\n\tswitch {\n\tcase isConst:\n\t\tv := constant.UnaryOp(token.SUB, vConstantValue(v0), 0)\n", Rule: "R03.18", Key: "negConst/result-is-a-fresh-value"},
+		mutant{Name: "unsigned-representable-by-bit-length-only", Prop: "C03", File: "interp/typecheck.go", Old: "\t\t\tif _, ok := constant.Uint64Val(x); !ok {\n\t\t\t\treturn false\n\t\t\t}\n\t\tdefault:", New: "\t\t\tif bitlen[t.Kind()] == 64 {\n\t\t\t\tif _, ok := constant.Uint64Val(x); !ok {\n\t\t\t\t\treturn false\n\t\t\t\t}\n\t\t\t}\n\t\tdefault:", Rule: "R03.19", Key: "representableConst/unsigned/negative-constants-rejected"},
+		mutant{Name: "constantOf-by-predicates-signed", Prop: "C03", File: "interp/value.go", Old: "\tcase reflect.Int, reflect.Int8, reflect.Int16, reflect.Int32, reflect.Int64:\n\t\treturn constant.MakeInt64(v.Int())\n\tcase reflect.Uint, reflect.Uint8, reflect.Uint16, reflect.Uint32, reflect.Uint64, reflect.Uintptr:\n\t\treturn constant.MakeUint64(v.Uint())\n\tcase reflect.Float32, reflect.Float64:\n\t\treturn constant.MakeFloat64(v.Float())\n\tcase reflect.Complex64, reflect.Complex128:\n", New: "\t}\n\tswitch t := v.Type(); {\n\tcase isInt(t):\n\t\treturn constant.MakeInt64(vInt(v))\n\tcase isFloat(t):\n\t\treturn constant.MakeFloat64(v.Float())\n\tcase isComplex(t):\n", Rule: "R03.20", Key: "constantOf/unsigned-kinds-read-as-signed#1"},
+		mutant{Name: "benign-constantOf-by-predicates-unsigned-first", Prop: "C03", File: "interp/value.go", Old: "\tcase reflect.Int, reflect.Int8, reflect.Int16, reflect.Int32, reflect.Int64:\n\t\treturn constant.MakeInt64(v.Int())\n\tcase reflect.Uint, reflect.Uint8, reflect.Uint16, reflect.Uint32, reflect.Uint64, reflect.Uintptr:\n\t\treturn constant.MakeUint64(v.Uint())\n\tcase reflect.Float32, reflect.Float64:\n\t\treturn constant.MakeFloat64(v.Float())\n\tcase reflect.Complex64, reflect.Complex128:\n", New: "\t}\n\tswitch t := v.Type(); {\n\tcase isUint(t):\n\t\treturn constant.MakeUint64(vUint(v))\n\tcase isInt(t):\n\t\treturn constant.MakeInt64(vInt(v))\n\tcase isFloat(t):\n\t\treturn constant.MakeFloat64(v.Float())\n\tcase isComplex(t):\n", Benign: true},
+		mutant{Name: "benign-exact-check-shift-count-test-moved", Prop: "C03", File: "interp/typecheck.go", Old: "\t\tif !exact {\n\t\t\treturn nil\n\t\t}\n", New: "\t\tif exact == false {\n\t\t\treturn nil\n\t\t}\n", Benign: true},
+	)
+}
